@@ -12,12 +12,14 @@ META = dict(
 
 
 def run(ctx):
-    specs = [('c04_mask16', 'c04.cpp', dict(opt='-O1')),
-             ('c04_reg16', 'c04.cpp', dict(opt='-O1', defs=['C04_MODE=REGISTRY'])),
-             ('c04_mask32', 'c04.cpp', dict(opt='-O1', defs=['C04_PTR=uint32_t']))]
+    specs = [('c04_mask16', 'c04.cpp', dict(opt='-O1', access=True)),
+             ('c04_reg16', 'c04.cpp', dict(opt='-O1', access=True, defs=['C04_MODE=REGISTRY'])),
+             ('c04_mask32', 'c04.cpp', dict(opt='-O1', access=True, defs=['C04_PTR=uint32_t'])),
+             # guest pointers as wide as the host's but base-relative: equal width is not equal representation
+             ('c04_mask64', 'c04.cpp', dict(opt='-O1', access=True, defs=['C04_PTR=uint64_t', 'C04_LOG=16']))]
     bins = ctx.build_many(specs)
     a = ['--thorough'] if ctx.thorough else []
-    for k in ('c04_mask16', 'c04_reg16', 'c04_mask32'):
+    for k in ('c04_mask16', 'c04_reg16', 'c04_mask32', 'c04_mask64'):
         ctx.run(bins[k], a)
     if ctx.thorough:
         ctx.run(bins['c04_mask32'], a + ['--what', 'sweep32'])
